@@ -64,6 +64,7 @@ Next ==
           /\ SnapCount < MaxSnap
           /\ Snapshot(n, S))
     \/ \E a \in Addr : rstate[a] = "open" /\ ReplicaRestart(a)
+    \/ ("oob" \in Ops /\ \E k \in {"Write", "Read"} : OobIO(k))
 
 Spec == MCInit2 /\ [][Next]_vars
 
